@@ -45,6 +45,16 @@ CLAIMED.update({
  'C18': dict(tech=COD, text='All 65,535 non-zero addresses of both kinds formatted, tokenised and parsed back; all component triples/pairs over the documented ranges widened by 3 (incl. negatives); raw forms; a grammar of malformed shapes (component counts 1..5, empty/junk components, wrong and exotic separators); constructors over 4096 systematic + seeded arguments. TLC compares with spec/Addr.tla (and proves the round trip on the reference for all addresses).',
    note='tokenisation (split + strconv.Atoi) is the trusted lexical step.'),
 })
+CLAIMED.update({
+ 'C06': dict(tech=COD, text='For every registered type: decode, re-encode, decode over the payload domains (all 2^6/2^8 encodings, all 2^16 encodings of the 3-byte types in the thorough tier and of 8 representatives in the quick tier, corner x full products and stratified IEEE classes of the 5-byte types, structured samples of the others). TLC checks Reaccepted, SameValue (bit patterns / fields) and, for exact families, ByteIdentical against the canonical re-encoding CanonB of spec/Dpt.tla. TLC also proves on the reference that all 65,536 two-octet float words re-encode drift-free.',
+   note='value comparison is on raw bit patterns / fields logged by reflection; no float arithmetic outside the code under test.'),
+ 'C07': dict(tech=COD, text='Encode direction for every registered type: Length / leading byte, SelfDecodable, OneStep (scaled families, in exact fixed-point arithmetic in TLA+), Monotone (adjacent sorted inputs), Saturates (out-of-range inputs land within one step of the bound; validity-gated structs give the zero payload), exact encodings of the integer / bit-field / IEEE families.',
+   note='sampled float inputs (boundary neighbourhoods + log-uniform), complete field products for structs.'),
+ 'C08': dict(tech=COD, text='For each of the 174 types: byte strings of length 0..20 over the boundary alphabet, all payloads of the correct length for the small types (thorough: complete), all day x month x year combinations, weekday x hour x minute x second products, all 256 reserved/valid-bit bytes of 242.600/251.600: Total (no panic in Unpack/String/Unit), WrongLengthRejected, InRange.',
+   note='InRange compares exact fixed-point values against the documented bounds in TLA+.'),
+ 'C19': dict(tech=COD + '; operation sequences replayed on a TLA+ model of the registry', text='Listed, Format, Unique, Keyed (type name = DPT_<main><sub>), Complete (every exported DPT_* type found by go/parser is produced by some name), UnknownRejected (near misses + 1000 seeded strings), FreshZero and Independent (random Produce/Unpack/Read sequences over 2 types x up to 4 instances replayed by TLC on spec/Registry.tla; 16 goroutines x 400 operations, under the race detector in the thorough tier).',
+   note='known finding C19-F1: the name "14.1200".'),
+})
 NA = {}
 for p in props:
     if p['id'] not in CLAIMED:
